@@ -438,6 +438,21 @@ theorem links_form (s : Schema) (r : Req) (st : Nat) (ct : String) (hs : List (S
     · exact route_links s r _ hr x hx'
   · rw [hb.1]; intro x hx; simp [Doc.resourceObjects] at hx
 
+/-- **standard_links_with_additional**: whatever links a (custom) resolver returned with the
+    relationship, `addStandardRelationshipLinks` yields the documented self/related links *of the
+    resource it is called for* followed by the resolver's additional links, unchanged — the result
+    depends on (id, name, the resolver's links) only, never on an earlier call (the Go code must build
+    a fresh map; round-5 seed C19-13 wrote into the resolver's shared map). Additional links are links
+    under other names than self/related; the stock resolvers return none. -/
+theorem standard_links_with_additional (id : RId) (name : String) (rel : Relationship) :
+    (addStandardRelationshipLinks id name rel).links = stdLinks id name ++ rel.links ∧
+    (addStandardRelationshipLinks id name rel).links.lookup "self" =
+      some ("/" ++ id.type ++ "/" ++ id.id ++ "/relationships/" ++ name) ∧
+    (addStandardRelationshipLinks id name rel).links.lookup "related" =
+      some ("/" ++ id.type ++ "/" ++ id.id ++ "/" ++ name) ∧
+    (addStandardRelationshipLinks id name rel).data = rel.data := by
+  refine ⟨rfl, ?_, ?_, rfl⟩ <;> simp [addStandardRelationshipLinks, List.lookup]
+
 /-- **links_form** (relationship routes): a successful answer on
     `/{type}/{id}/relationships/{name}` carries exactly the documented `self` and `related` links. -/
 theorem links_form_relationship (s : Schema) (r : Req) (ty id name : String)
